@@ -10,7 +10,7 @@
 (* row: id, kind ("run": a run of the shared plan with all report writers, *)
 (*      "pair": run with a stale rerun file + feed-back + second run,      *)
 (*      "synth": real RerunFormatter fed with a model of Rerun_MC),        *)
-(*  prog <<[kind, parent, children]>>, cfg [dry], ran (the run came to its *)
+(*  prog <<[kind, parent, children, tags]>>, cfg [dry], ran (the run came to its *)
 (*  end without an escaping exception), status / line / fidx per element   *)
 (*  (FINAL statuses as recorded; which scenarios are unsuccessful is       *)
 (*  decided here, never by the driver), calls <<[name, el]>> (feature /    *)
@@ -61,12 +61,17 @@ ExactVerdict(m, file) ==
 \* of the features it was given as skipped
 LoopVerdicts(r, m, file) ==
    IF ~r.loop.done \/ ~LoopJudged(m, file) THEN {}
-   ELSE LET want == Listed(m, file) IN
+   ELSE LET want == Listed(m, file)
+            may  == want \cup ExemptNamed(m, file)          \* @setup / @teardown scenarios may stay (documented exemption)
+            sel  == SeqSet(r.loop.sel)
+            ran2 == SeqSet(r.loop.ran2) IN
         IF r.loop.exc # "" THEN {<<"C17.loop", "crash", r.loop.exc>>}
-        ELSE (IF SeqSet(r.loop.sel) # want
-              THEN {<<"C17.loop", "select", IF want \ SeqSet(r.loop.sel) # {} THEN "missing" ELSE "extra">>} ELSE {})
-             \cup (IF r.loop.ran2done /\ (SeqSet(r.loop.ran2) # want \/ (SeqSet(r.loop.known) \ want) \ SeqSet(r.loop.skipped2) # {})
-                   THEN {<<"C17.loop", "second_run", IF want \ SeqSet(r.loop.ran2) # {} THEN "missing" ELSE "extra">>} ELSE {})
+        ELSE (IF want \ sel # {} THEN {<<"C17.loop", "select", "missing">>}
+              ELSE IF sel \ may # {} THEN {<<"C17.loop", "select", "extra">>} ELSE {})
+             \cup (IF ~r.loop.ran2done THEN {}
+                   ELSE IF want \ ran2 # {} THEN {<<"C17.loop", "second_run", "missing">>}
+                   ELSE IF ran2 \ may # {} \/ (SeqSet(r.loop.known) \ may) \ SeqSet(r.loop.skipped2) # {}
+                   THEN {<<"C17.loop", "second_run", "extra">>} ELSE {})
 
 Verdicts(r) ==
    IF ~r.ran THEN {}                       \* the run died: close() may never have come (C01.crash's business)
